@@ -71,6 +71,13 @@ func init() {
 		Quiet()
 		return RunBer(a[1], a[2])
 	}
+	Modes["diamchf"] = func(a []string) error {
+		if len(a) != 3 {
+			return fmt.Errorf("diamchf <prefix> <vectors.json> <out.ndjson>")
+		}
+		Quiet()
+		return RunDiamChf(a[0], a[1], a[2])
+	}
 	Modes["berchild"] = func(a []string) error {
 		if len(a) != 3 {
 			return fmt.Errorf("berchild <target> <params> <file>")
